@@ -118,10 +118,17 @@ package badgerstore
 //@ func callback.queryChangeCB(self ref, qc store.QueryChange)
 //@   modifies ghost.qcn, ghost.qclast
 //@   ensures qcn == old(qcn) + 1 && same(qclast, qc)
+//@ # keyn: key-function invocations made by updateIndex (every index is consulted for the old and for the new value)
+//@ ghostvar keyn int
+//@ func callback.keyCBn(self ref, v interface{}) (k []byte)
+//@   modifies alloc, ghost.keyn
+//@   ensures unchanged("bytes") && keyn == old(keyn) + 1
 //@ func QueryStore.updateIndex$1(txn *badger.Txn) (err error)
 //@   requires qs != nil && txn != nil && forallint(k, imp(mapHasId(qs.idxs, k), mapValId(qs.idxs, k).Key != nil)) && !chg
-//@   modifies ghost.kvhas, ghost.chg, alloc, bytes
-//@   callback Key keyCB
+//@   modifies ghost.kvhas, ghost.chg, ghost.keyn, alloc, bytes
+//@   callback Key keyCBn
+//@   # every index of the query store is consulted, whatever the other indexes found (C13: "for every index")
+//@   ensures every.index: keyn == old(keyn) + ite(isNil(before), 0, len(qs.idxs)) + ite(isNil(after), 0, len(qs.idxs))
 //@   ghost call Index.getKey#1 before :: set chg = true
 //@   ghost call Index.getKey#2 before :: set chg = true
 //@   # the entry deleted is the one built from the old key, the entry set the one built from the new key
@@ -134,6 +141,7 @@ package badgerstore
 //@   ensures commit: isNil(err)
 //@   ensures flag: updated == (old(updated) || chg) && imp(!chg, kvhas == old(kvhas))
 //@   loop 1 invariant updated == (old(updated) || chg) && imp(!chg, kvhas == old(kvhas)) && bytes(rname) == id
+//@   loop 1 invariant _seenn <= len(qs.idxs) && keyn == old(keyn) + ite(isNil(before), 0, _seenn) + ite(isNil(after), 0, _seenn)
 //@ func (qs *QueryStore) updateIndex(id string, before interface{}, after interface{}) (err error)
 //@   requires qs != nil && qs.st != nil && qs.st.DB != nil && forallint(k, imp(mapHasId(qs.idxs, k), mapValId(qs.idxs, k).Key != nil)) && forall(k, 0, len(qs.onQueryChange), qs.onQueryChange[k] != nil)
 //@   modifies all
@@ -184,12 +192,13 @@ package badgerstore
 //@ # ================================================================ store operations (C11, C12)
 //@ props C11 C12
 //@ ghostvar bcn int
-//@ ghostvar bcveto bool
+//@ # bcvn: BeforeChange invocations that returned an error (vetoes)
+//@ ghostvar bcvn int
 //@ # (chn/chid/chb/cha and callback.onChangeCB are declared in store/zz_contracts_verif.go)
 //@ # bcn: BeforeChange invocations
 //@ func callback.beforeCB(self ref, id string, before interface{}, after interface{}) (err error)
-//@   modifies ghost.bcn
-//@   ensures bcn == old(bcn) + 1
+//@   modifies ghost.bcn, ghost.bcvn
+//@   ensures bcn == old(bcn) + 1 && bcvn == old(bcvn) + ite(isNil(err), 0, 1)
 //@
 //@ func (st *Store) callOnChange(id string, before interface{}, after interface{})
 //@   requires st != nil && forall(k, 0, len(st.onChange), st.onChange[k] != nil)
@@ -201,10 +210,12 @@ package badgerstore
 //@   loop 1 invariant imp(rangeindex >= 0, same(chid, id) && same(chb, before) && same(cha, after))
 //@ func (st *Store) callBeforeChange(id string, before interface{}, after interface{}) (err error)
 //@   requires st != nil && forall(k, 0, len(st.beforeChange), st.beforeChange[k] != nil)
-//@   modifies ghost.bcn
+//@   modifies ghost.bcn, ghost.bcvn
 //@   callback cb beforeCB
 //@   ensures all: imp(isNil(err), bcn == old(bcn) + len(st.beforeChange))
-//@   loop 1 invariant -1 <= rangeindex && rangeindex < len(st.beforeChange) + 0 && bcn == old(bcn) + rangeindex + 1
+//@   # a veto of any listener is reported (C11: a BeforeChange veto fails the operation)
+//@   ensures veto: isNil(err) == (bcvn == old(bcvn))
+//@   loop 1 invariant -1 <= rangeindex && rangeindex < len(st.beforeChange) + 0 && bcn == old(bcn) + rangeindex + 1 && bcvn == old(bcvn)
 //@
 //@ # getValue / setValue go through reflect and encoding: used through their contracts (assumed, see DESIGN)
 //@ func (st *Store) getValue(txn *badger.Txn, key []byte) (v interface{}, err error)
@@ -223,8 +234,9 @@ package badgerstore
 //@     && len(wt.rname) == len(wt.st.prefix) + len(wt.id) && bytes(wt.rname)[0:len(wt.st.prefix)] == wt.st.prefix && bytes(wt.rname)[len(wt.st.prefix):] == wt.id
 //@ func writeTxn.Create$1(txn *badger.Txn) (err error)
 //@   requires txnOK(wt) && txn != nil
-//@   modifies ghost.kvhas, ghost.bcn, alloc, bytes
+//@   modifies ghost.kvhas, ghost.bcn, ghost.bcvn, alloc, bytes
 //@   ensures dup: imp(old(len(wt.rname) > 0 && kvhas[keyid(bytes(wt.rname))]), isErr(err, store.ErrDuplicate))
+//@   ensures veto: imp(bcvn != old(bcvn), !isNil(err))
 //@   ensures ok.absent: imp(isNil(err), !old(kvhas[keyid(bytes(wt.rname))]))
 //@   ensures ok.kv: imp(isNil(err), kvhas == store(old(kvhas), keyid(old(bytes(wt.rname))), true))
 //@   ensures ok.bc: imp(isNil(err), bcn == old(bcn) + len(wt.st.beforeChange))
@@ -243,6 +255,7 @@ package badgerstore
 //@   requires txnOK(wt) && txn != nil && isNil(wt.v)
 //@   modifies all
 //@   ensures missing: imp(old(len(wt.rname) > 0 && !kvhas[keyid(bytes(wt.rname))]), isErr(err, res.ErrNotFound))
+//@   ensures veto: imp(bcvn != old(bcvn), !isNil(err))
 //@   ensures ok: imp(isNil(err), old(kvhas[keyid(bytes(wt.rname))]) && kvhas == store(old(kvhas), keyid(old(bytes(wt.rname))), true) && bcn == old(bcn) + len(wt.st.beforeChange) && !isNil(before))
 //@   ensures failed: imp(!isNil(err), kvhas == old(kvhas))
 //@   ensures frame: unchanged("badgerstore.Store.onChange", "badgerstore.Store.beforeChange", "elems:badgerstore.Store.onChange") && chn == old(chn)
@@ -259,6 +272,7 @@ package badgerstore
 //@   requires txnOK(wt) && txn != nil && isNil(wt.v)
 //@   modifies all
 //@   ensures missing: imp(old(len(wt.rname) > 0 && !kvhas[keyid(bytes(wt.rname))]), isErr(err, res.ErrNotFound))
+//@   ensures veto: imp(bcvn != old(bcvn), !isNil(err))
 //@   ensures ok: imp(isNil(err), old(kvhas[keyid(bytes(wt.rname))]) && kvhas == store(old(kvhas), keyid(old(bytes(wt.rname))), false) && !isNil(before))
 //@   ensures failed: imp(!isNil(err), kvhas == old(kvhas))
 //@   ensures frame: unchanged("badgerstore.Store.onChange", "badgerstore.Store.beforeChange", "elems:badgerstore.Store.onChange") && chn == old(chn)
